@@ -77,6 +77,26 @@ func propC01QuerySequences(t *rapid.T) {
 		if back := oracle.Parse(text, false); !oracle.QueryEqual(back, q) {
 			continue // generator guard: spelling not covered by the documented grammar
 		}
+		// the end of the query as typed: blanks after the last term, or a backslash that nothing
+		// follows yet (it stands for itself)
+		evalQ := q
+		switch rapid.IntRange(0, 7).Draw(t, "queryEnd") {
+		case 0:
+			text += strings.Repeat(" ", rapid.IntRange(1, 3).Draw(t, "trailingBlanks"))
+		case 1:
+			lg := q[len(q)-1]
+			if k := lg[len(lg)-1].Kind; k == oracle.KindFuzzy || k == oracle.KindExact || k == oracle.KindPrefix {
+				evalQ = make(oracle.Query, len(q))
+				for i := range q {
+					evalQ[i] = append([]oracle.Term{}, q[i]...)
+				}
+				evalQ[len(q)-1][len(lg)-1].Body += "\\"
+				text += "\\"
+				if back := oracle.Parse(text, false); !oracle.QueryEqual(back, evalQ) {
+					t.Fatalf("generator guard: %q does not parse back to %v (got %v)", text, evalQ, back)
+				}
+			}
+		}
 		history = append(history, text)
 		p := BuildPattern(shared, patternCache, true, algo.FuzzyMatchV2, true, CaseSmart, true, true, false, true, nil, Delimiter{}, revision{}, []rune(text), nil)
 		var got []int
@@ -88,7 +108,7 @@ func propC01QuerySequences(t *rapid.T) {
 		sort.Ints(got)
 		var want []int
 		for i, l := range lines {
-			if q.Eval(qo, [][]rune{[]rune(l)}) {
+			if evalQ.Eval(qo, [][]rune{[]rune(l)}) {
 				want = append(want, i)
 			}
 		}
